@@ -127,7 +127,7 @@ func (g *gen) f(name string) { g.feat[name]++ }
 
 // multiline reports whether an inline construct may span a line ending here.
 func (g *gen) multiline() bool {
-	return !g.p.Canonical && !g.oneLine && !g.no("inline:multiline") && g.r.Intn(3) == 0
+	return !g.oneLine && !g.no("inline:multiline") && g.r.Intn(3) == 0
 }
 
 func (g *gen) word() *inl { return &inl{k: iWord, s: words[g.r.Intn(len(words))]} }
